@@ -11,7 +11,7 @@ SPEC = {
     "lean_modules": ["PallasVerif.Props.C22"],
     "required_theorems": [
         "handshake_n2n", "handshake_n2c", "chainsync_headers", "chainsync_blocks", "chainsync_skipped", "blockfetch",
-        "txsubmission", "keepalive", "peersharing_n1", "peersharing_n2", "txmonitor", "localstate", "localtxsubmission",
+        "txsubmission", "keepalive", "peersharing_n1", "peersharing_n2", "txmonitor", "localstate", "localtxsubmission_envelope", "localtxsubmission_partial",
         "localmsgsubmission", "localmsgnotification", "leiosnotify", "leiosfetch", "declared_len_matches",
         "labels_match_sources", "translator_no_unknowns", "translator_found_all", "okAny_ok",
     ],
